@@ -3,7 +3,10 @@
 Writes seeded/MATRIX.txt: for each seed, the checks that report VIOLATION (exit 1) / ANALYSIS-ERROR (exit 2)."""
 import json, os, subprocess, sys, shutil
 from concurrent.futures import ThreadPoolExecutor
-SEEDS = sorted(d for d in os.listdir('/verif/seeded') if os.path.isdir('/verif/seeded/' + d))
+import re
+FILTER = os.environ.get('SEED_FILTER')     # optional regex: only these seeds, result to /tmp/seed_matrix_partial.txt
+SEEDS = sorted(d for d in os.listdir('/verif/seeded') if os.path.isdir('/verif/seeded/' + d) and (not FILTER or re.search(FILTER, d)))
+OUTFILE = '/tmp/seed_matrix_partial.txt' if FILTER else '/verif/seeded/MATRIX.txt'
 CHECKS = ["C%02d" % i for i in range(1, 21)]
 HEAD = subprocess.check_output(['git', '-C', '/repo', 'rev-parse', 'HEAD'], text=True).strip()
 
@@ -45,7 +48,7 @@ with ThreadPoolExecutor(slots) as ex:
     for r in ex.map(lambda a: worker(*a), [(i, p) for i, p in enumerate(parts) if p]):
         allres.update(r)
 subprocess.run(['git', '-C', '/repo', 'worktree', 'prune'])
-with open('/verif/seeded/MATRIX.txt', 'w') as f:
+with open(OUTFILE, 'w') as f:
     f.write("# seed -> checks that exit non-zero on /repo HEAD %s + seed (1 = VIOLATION, 2 = ANALYSIS-ERROR only)\n" % HEAD[:7])
     for seed in SEEDS:
         res = allres.get(seed, {})
